@@ -119,11 +119,15 @@ fn exact_extract(rep: &mut Report) {
 
 fn float_build<T: Tier + Dom<M = Sh>>(rep: &mut Report) {
     let n = rep.pick(11, 21);
-    let grid: Vec<f64> = (0..n).map(|j| -3.3 + 6.6 * j as f64 / (n - 1) as f64).collect();
+    let mut grid: Vec<f64> = (0..n).map(|j| -3.3 + 6.6 * j as f64 / (n - 1) as f64).collect();
+    // angles of more than a half and more than a full turn: "for all angles", and the half-angle formulas of the
+    // quaternion change sign there
+    grid.extend([4.0, -4.0, 7.0, -7.0, 9.5, -13.0]);
+    let n = grid.len();
     rep.cases(
         "build/native",
         T::NAME,
-        &format!("{n}^3 angle triples on [-3.3, 3.3] rad, as Rad and as Deg"),
+        &format!("{n}^3 angle triples on [-3.3, 3.3] rad and from {{+-4, +-7, 9.5, -13}} rad, as Rad and as Deg"),
         n * n * n * 2,
         Guard::states(100).distinct(100),
         |i, ctx| {
@@ -141,6 +145,9 @@ fn float_build<T: Tier + Dom<M = Sh>>(rep: &mut Report) {
                 let rv: [T; 3] = std::array::from_fn(|j| num_traits::cast::<f64, T>(th[j]).unwrap());
                 let cs: Vec<(Sh, Sh)> = rv.iter().map(|x| Sh::exact(x.f()).cos_sin()).collect();
                 build_one::<T, Rad<T>>(ctx, Euler { x: Rad(rv[0]), y: Rad(rv[1]), z: Rad(rv[2]) }, cs[0], cs[1], cs[2], true, 4.0);
+                // the constructor takes the angles in the order of the fields
+                let en = Euler::new(Rad(rv[0]), Rad(rv[1]), Rad(rv[2]));
+                same_slice(ctx, &key("Euler::new"), &[en.x.0, en.y.0, en.z.0], &rv);
             }
         },
     );
@@ -156,7 +163,7 @@ fn mat_of_q(q: [f64; 4]) -> [[f64; 3]; 3] {
 
 fn float_extract<T: Tier + Dom<M = Sh>>(rep: &mut Report) {
     // quaternions from Euler grids with prescribed sin(y), plus the rational unit quaternions
-    let sines: Vec<f64> = [0.0, 0.5, 0.99, 0.9979, 0.99799, 0.99801, 0.9981, 0.999, 1.0].iter().flat_map(|s| [*s, -*s]).skip(1).collect();
+    let sines: Vec<f64> = [0.0, 0.5, 0.99, 0.9979, 0.99799, 0.997998, 0.998002, 0.99801, 0.9981, 0.999, 1.0].iter().flat_map(|s| [*s, -*s]).skip(1).collect();
     let nxz = rep.pick(9, 21);
     let xz: Vec<f64> = (0..nxz).map(|j| -3.0 + 6.0 * j as f64 / (nxz - 1) as f64).collect();
     let uq = alphabet::uq(1);
@@ -214,7 +221,8 @@ fn float_extract<T: Tier + Dom<M = Sh>>(rep: &mut Report) {
                 }
                 "cone+" | "cone-" => {
                     ctx.check(ex_ == 0.0, &key("extract/cone/x=0"), || format!("x = {ex_} inside the gimbal-lock cone (sin y = {siny})"));
-                    let quarter = Rad::<T>::turn_div_4().0.f();
+                    // pi/2 rounded to the scalar type (not the library's own constant)
+                    let quarter = num_traits::cast::<f64, T>(PI / 2.0).unwrap().f();
                     let want_y = if class == "cone+" { quarter } else { -quarter };
                     ctx.check(ey == want_y, &key("extract/cone/y=+-pi/2"), || format!("y = {ey}, expected {want_y}"));
                     ctx.check(maxdiff <= 0.13, &key("extract/cone/rebuild-within-0.13"), || format!("rebuilt rotation differs by {maxdiff}"));
@@ -231,7 +239,7 @@ fn float_extract<T: Tier + Dom<M = Sh>>(rep: &mut Report) {
 fn main() {
     let mut rep = Report::from_args(P);
     rep.assume("exact tier: Euler angles are lattice codes; the gimbal test is decided exactly; extraction is an exact reverse look-up on principal angles, so the round trip is an equality; the cone itself is not reachable on the lattices and is decided in the float tiers");
-    rep.assume("float tiers: quaternions with prescribed sin(y) bracketing the 0.998 threshold from both sides at +-1e-5; cases within 1e-6 of the threshold must satisfy the weaker (0.13) clause only");
+    rep.assume("float tiers: quaternions with prescribed sin(y) bracketing the 0.998 threshold from both sides at +-1e-5 and +-2e-6; cases within 1e-6 of the threshold must satisfy the weaker (0.13) clause only");
     exact_build(&mut rep);
     exact_extract(&mut rep);
     float_build::<f64>(&mut rep);
